@@ -383,26 +383,29 @@ pub struct Variant {
     pub slow_other_port: bool,
     /// configured delay-asymmetry of both ports in ns (C09: 0, -2 ms, +1.5 ms, +12.345678 ms by worker index mod 4)
     pub asym_ns: i64,
+    /// configured priority1 of the daemon (C05: 128, 127, 129, 128 by worker index mod 4)
+    pub own_p1: u8,
 }
 
 impl Variant {
     pub fn from_index(first: u64, prop: &str) -> Variant {
         let alt = (first / 4) % 2 == 1;
         let other_domain = first % 3 == 1;
-        Variant { path_trace: first % 2 == 1, udp: (first / 2) % 2 == 1, swap: alt && prop != "C12" && prop != "C06" && prop != "C09", p2p: (alt && (prop == "C12" || prop == "C09")) || prop == "C14", sdo: if other_domain { 0x1a5 } else { 0 }, domain: if other_domain { 7 } else { 0 }, alt, aml: (prop == "C14" || prop == "C07") && first % 2 == 1, long_timeout: prop == "C14", slow_other_port: prop == "C06" && alt, asym_ns: if prop == "C09" { [0i64, -2_000_000, 1_500_000, 12_345_678][(first % 4) as usize] } else { 0 } }
+        Variant { path_trace: first % 2 == 1, udp: (first / 2) % 2 == 1, swap: alt && prop != "C12" && prop != "C06" && prop != "C09", p2p: (alt && (prop == "C12" || prop == "C09")) || prop == "C14", sdo: if other_domain { 0x1a5 } else { 0 }, domain: if other_domain { 7 } else { 0 }, alt, aml: (prop == "C14" || prop == "C07") && first % 2 == 1, long_timeout: prop == "C14", slow_other_port: prop == "C06" && alt, asym_ns: if prop == "C09" { [0i64, -2_000_000, 1_500_000, 12_345_678][(first % 4) as usize] } else { 0 }, own_p1: if prop == "C05" { [128u8, 127, 129, 128][(first % 4) as usize] } else { 128 } }
     }
     pub fn index(&self) -> u64 {
         self.path_trace as u64 + 2 * self.udp as u64 + 4 * self.alt as u64
     }
     pub fn from_render(v: &Value, prop: &str) -> Variant {
         let alt = v["variant_alt"].as_bool().unwrap_or(false);
-        let mut var = Variant { path_trace: v["path_trace"].as_bool().unwrap_or(false), udp: v["transport"].as_str() == Some("udp-ipv4"), swap: alt && prop != "C12" && prop != "C06" && prop != "C09", p2p: (alt && (prop == "C12" || prop == "C09")) || prop == "C14", sdo: 0, domain: 0, alt, aml: false, long_timeout: prop == "C14", slow_other_port: prop == "C06" && alt, asym_ns: 0 };
+        let mut var = Variant { path_trace: v["path_trace"].as_bool().unwrap_or(false), udp: v["transport"].as_str() == Some("udp-ipv4"), swap: alt && prop != "C12" && prop != "C06" && prop != "C09", p2p: (alt && (prop == "C12" || prop == "C09")) || prop == "C14", sdo: 0, domain: 0, alt, aml: false, long_timeout: prop == "C14", slow_other_port: prop == "C06" && alt, asym_ns: 0, own_p1: 128 };
         // sdoId / domain are a function of the worker index
         let again = Variant::from_index(var.index(), prop);
         var.sdo = again.sdo;
         var.domain = again.domain;
         var.aml = again.aml;
         var.asym_ns = again.asym_ns;
+        var.own_p1 = again.own_p1;
         var
     }
 }
@@ -515,7 +518,7 @@ impl World {
         let dir = std::env::temp_dir().join(format!("vcheck-e2e-{}-{}", std::process::id(), GEN.fetch_add(1, std::sync::atomic::Ordering::Relaxed)));
         std::fs::create_dir_all(&dir).map_err(|e| e.to_string())?;
         let cfg = format!(
-            "loglevel = \"{ll}\"\nsdo-id = {sdo}\ndomain = {dom}\npriority1 = 128\nidentity = \"001b19aa0001beef\"\nvirtual-system-clock = true\npath-trace = {}\n\n[[port]]\ninterface = \"a0\"\nnetwork-mode = \"{nm}\"\nhardware-clock = \"none\"\nannounce-interval = {l}\nsync-interval = {l}\ndelay-interval = -2\ndelay-mechanism = \"{dm}\"\n{aml}\n[[port]]\ninterface = \"b0\"\nnetwork-mode = \"{nm}\"\nhardware-clock = \"none\"\nannounce-interval = {lb}\nsync-interval = {l}\ndelay-interval = -2\ndelay-mechanism = \"{dm}\"\n{aml}\n[observability]\nobservation-path = \"{}\"\n",
+            "loglevel = \"{ll}\"\nsdo-id = {sdo}\ndomain = {dom}\npriority1 = {p1}\nidentity = \"001b19aa0001beef\"\nvirtual-system-clock = true\npath-trace = {}\n\n[[port]]\ninterface = \"a0\"\nnetwork-mode = \"{nm}\"\nhardware-clock = \"none\"\nannounce-interval = {l}\nsync-interval = {l}\ndelay-interval = -2\ndelay-mechanism = \"{dm}\"\n{aml}\n[[port]]\ninterface = \"b0\"\nnetwork-mode = \"{nm}\"\nhardware-clock = \"none\"\nannounce-interval = {lb}\nsync-interval = {l}\ndelay-interval = -2\ndelay-mechanism = \"{dm}\"\n{aml}\n[observability]\nobservation-path = \"{}\"\n",
             path_trace,
             dir.join("obs.sock").display(),
             l = ANN_LOG,
@@ -524,6 +527,7 @@ impl World {
             dm = if variant.p2p { "P2P" } else { "E2E" },
             sdo = variant.sdo,
             dom = variant.domain,
+            p1 = variant.own_p1,
             lb = if variant.slow_other_port { 0 } else { ANN_LOG },
             aml = format!("{}{}{}", if variant.asym_ns != 0 { format!("delay-asymmetry = {}\n", variant.asym_ns) } else { String::new() }, if variant.aml { "acceptable-master-list = [\"001b19cc00000002\", \"001b19cc00000007\", \"001b19cc00000021\"]\n" } else { "" }, if variant.long_timeout { "announce-receipt-timeout = 8\n" } else { "" })
         );
@@ -2216,6 +2220,175 @@ pub fn case_c03(w: &mut World, t: &mut Tape) -> E2eOut {
     E2eOut { out, inconclusive: None }
 }
 
+// ---------------------------------------------------------------- C05 case (the daemon's BMCA outcome against the standard's)
+
+/// One case: up to two generated masters on each segment (and the usual parent on the first, in half of the cases)
+/// announce steadily for 2 s; their data sets are drawn from small domains around the daemon's own and the parent's
+/// values, attributes being a function of the grandmaster identity; several senders may announce one grandmaster at
+/// different distances (topology decisions, Passive ports). Then the daemon's port states, parentDS and stepsRemoved
+/// are compared with what the harness's own implementation of 1588's data set comparison and state decision gives
+/// for the daemon's defaultDS (read from the observation socket) and those candidates. A mismatch must persist for
+/// 1.5 s more of steady announcing to count. Cases in which the standard's comparison reports a tie are not judged.
+pub fn case_c05(w: &mut World, t: &mut Tape) -> E2eOut {
+    use crate::refbmca::{decide, Cand, Code, DsView, PortIn};
+    let mut out = CaseOut::new();
+    let parent_on = t.bool();
+    let ngm = 1 + t.weighted(&[3, 2, 1]);
+    let mut gms: Vec<RAnnounce> = vec![];
+    for k in 0..ngm {
+        let mut a = simple_announce([0x00, 0x1b, 0x19, 0xb0, 0, 0, k as u8, *t.pick(&[1u8, 2, 3, 0xfe])], *t.pick(&[50u8, 99, 100, 100, 101, 127, 128, 129, 200]), *t.pick(&[6u8, 7, 248, 255]), 0);
+        a.gm_accuracy = *t.pick(&[0x20u8, 0x21, 0x22, 0xfe]);
+        a.gm_variance = *t.pick(&[0x3fffu16, 0x4000, 0x4001, 0xffff]);
+        a.gm_priority2 = *t.pick(&[127u8, 128, 129]);
+        gms.push(a);
+    }
+    // (segment, sender, announce)
+    let mut senders: Vec<(char, PortId, RAnnounce, u16)> = vec![];
+    for seg in ['a', 'b'] {
+        let n = t.below(3);
+        for k in 0..n {
+            let g = gms[t.below(ngm as u64) as usize];
+            let mut ann = g;
+            let sender = if t.chance(1, 3) {
+                // the grandmaster itself, through one of its ports
+                ann.steps_removed = 0;
+                PortId { clock: g.gm_identity, port: 1 + k as u16 + if seg == 'b' { 2 } else { 0 } }
+            } else {
+                ann.steps_removed = t.urange(1, 3) as u16;
+                PortId { clock: [0x00, 0x1b, 0x19, 0xb1, seg as u8, 0, 0, k as u8 + 1], port: 1 }
+            };
+            senders.push((seg, sender, ann, t.below(0x10000) as u16));
+        }
+    }
+    let rendered = json!({"parent_on": parent_on, "senders": senders.iter().map(|s| format!("{} {:02x?}/{} gm {:02x?} p1 {} class {} acc {:#x} var {:#x} p2 {} steps {}", s.0, s.1.clock, s.1.port, s.2.gm_identity, s.2.gm_priority1, s.2.gm_class, s.2.gm_accuracy, s.2.gm_variance, s.2.gm_priority2, s.2.steps_removed)).collect::<Vec<_>>()});
+    out.render = rendered.clone();
+    let a_port = w.slave_port_id();
+    let b_port = PortId { clock: w.own_identity, port: (1 - w.slave_idx) as u16 + 1 };
+    let mut step = |w: &mut World, senders: &mut Vec<(char, PortId, RAnnounce, u16)>, ms: u64| {
+        let t0 = Instant::now();
+        let mut next = Instant::now();
+        while t0.elapsed() < Duration::from_millis(ms) {
+            if !parent_on {
+                w.next_parent = Instant::now() + Duration::from_millis(500);
+            }
+            let d = Instant::now() + Duration::from_millis(25);
+            w.run_until(d);
+            if Instant::now() >= next {
+                next = Instant::now() + Duration::from_millis(ANN_MS);
+                for s in senders.iter_mut() {
+                    s.3 = s.3.wrapping_add(1);
+                    let mut m = announce_from(s.1, s.3, s.2, 0, 0);
+                    m.header.log_interval = ANN_LOG;
+                    if s.0 == 'a' {
+                        w.send_a(&m);
+                    } else {
+                        w.send_b(&m);
+                    }
+                }
+            }
+        }
+    };
+    step(w, &mut senders, 2000);
+    let cand_list: Vec<(char, Cand)> = senders.iter().map(|s| (s.0, Cand { sender: s.1, ann: s.2 })).collect();
+    let judge = |w: &World| -> Result<Option<String>, String> {
+        let Some(o) = w.observe() else { return Err("no observation".into()) };
+        let i = &o.instance;
+        if i.port_ds.len() != 2 {
+            return Err("not two ports".into());
+        }
+        let dd = &i.default_ds;
+        let d0 = DsView::d0(dd.clock_identity.0, dd.priority_1, dd.clock_quality.clock_class, dd.clock_quality.clock_accuracy.to_primitive(), dd.clock_quality.offset_scaled_log_variance, dd.priority_2);
+        let mut ca: Vec<Cand> = cand_list.iter().filter(|s| s.0 == 'a').map(|s| s.1).collect();
+        if parent_on {
+            ca.push(Cand { sender: PARENT, ann: w.parent_ann });
+        }
+        let cb: Vec<Cand> = cand_list.iter().filter(|s| s.0 == 'b').map(|s| s.1).collect();
+        let ports = [PortIn { id: a_port, listening: false, excluded_from_ebest: false, cands: ca }, PortIn { id: b_port, listening: false, excluded_from_ebest: false, cands: cb }];
+        let dec = decide(&d0, &ports);
+        if dec.tie {
+            return Ok(None);
+        }
+        let want: Vec<&str> = dec.codes.iter().map(|c| match c {
+            Code::M1 | Code::M2 | Code::M3 => "Master",
+            Code::P1 | Code::P2 => "Passive",
+            Code::S1 => "Slave",
+            Code::Stay => "Listening",
+        }).collect();
+        let got = [format!("{:?}", i.port_ds[w.slave_idx].port_state), format!("{:?}", i.port_ds[1 - w.slave_idx].port_state)];
+        let mut diffs = vec![];
+        for k in 0..2 {
+            if !got[k].starts_with(want[k]) {
+                diffs.push(format!("port on the {} segment is {} where the state decision ({:?}) gives {}", if k == 0 { "first" } else { "second" }, got[k].split('(').next().unwrap_or(""), dec.codes[k], want[k]));
+            }
+        }
+        let p = &i.parent_ds;
+        let slave = dec.codes.iter().position(|c| *c == Code::S1);
+        match (slave, dec.ebest) {
+            (Some(_), Some((_, c))) => {
+                if p.parent_port_identity.clock_identity.0 != c.sender.clock || p.parent_port_identity.port_number != c.sender.port {
+                    diffs.push(format!("parent {:02x?}/{} where Ebest was sent by {:02x?}/{}", p.parent_port_identity.clock_identity.0, p.parent_port_identity.port_number, c.sender.clock, c.sender.port));
+                }
+                if p.grandmaster_identity.0 != c.ann.gm_identity || p.grandmaster_priority_1 != c.ann.gm_priority1 || p.grandmaster_priority_2 != c.ann.gm_priority2 || p.grandmaster_clock_quality.clock_class != c.ann.gm_class || p.grandmaster_clock_quality.offset_scaled_log_variance != c.ann.gm_variance {
+                    diffs.push(format!("parentDS grandmaster {:02x?} p1 {} p2 {} class {} where Ebest has {:02x?} p1 {} p2 {} class {}", p.grandmaster_identity.0, p.grandmaster_priority_1, p.grandmaster_priority_2, p.grandmaster_clock_quality.clock_class, c.ann.gm_identity, c.ann.gm_priority1, c.ann.gm_priority2, c.ann.gm_class));
+                }
+                if i.current_ds.steps_removed != c.ann.steps_removed + 1 {
+                    diffs.push(format!("stepsRemoved {} where Ebest has {} + 1", i.current_ds.steps_removed, c.ann.steps_removed));
+                }
+            }
+            _ => {
+                if p.parent_port_identity.clock_identity.0 != w.own_identity || i.current_ds.steps_removed != 0 || p.grandmaster_identity.0 != w.own_identity {
+                    diffs.push(format!("no port is slave by the state decision, yet parent {:02x?}, grandmaster {:02x?}, stepsRemoved {}", p.parent_port_identity.clock_identity.0, p.grandmaster_identity.0, i.current_ds.steps_removed));
+                }
+            }
+        }
+        Ok(Some(if diffs.is_empty() { String::new() } else { format!("{} ; decision codes {:?}, own defaultDS p1 {} class {} acc {:#x} var {:#x} p2 {}", diffs.join(" ; "), dec.codes, dd.priority_1, dd.clock_quality.clock_class, dd.clock_quality.clock_accuracy.to_primitive(), dd.clock_quality.offset_scaled_log_variance, dd.priority_2) }))
+    };
+    let mut verdict = judge(w);
+    let mut extra = 0;
+    while matches!(&verdict, Ok(Some(d)) if !d.is_empty()) && extra < 15 {
+        step(w, &mut senders, 100);
+        verdict = judge(w);
+        extra += 1;
+    }
+    let codes_label;
+    match verdict {
+        Err(e) => {
+            if !w.alive() {
+                out.fail("daemon exited", rendered.to_string());
+                return E2eOut { out, inconclusive: None };
+            }
+            return E2eOut { out, inconclusive: Some(e) };
+        }
+        Ok(None) => {
+            codes_label = "tie:not-judged".to_string();
+        }
+        Ok(Some(d)) => {
+            if !d.is_empty() {
+                out.fail("daemon: BMCA outcome differs from the standard's state decision", format!("{} ; {}", d, rendered));
+            }
+            codes_label = "judged".to_string();
+            if !senders.is_empty() {
+                out.nontrivial = Some(hash_of(&rendered.to_string()));
+            }
+        }
+    }
+    out.label(format!("daemon:bmca:{}", codes_label));
+    if let Some((a, b)) = w.port_states() {
+        out.label(format!("daemon:states:{}/{}", a.split('(').next().unwrap_or(""), b.split('(').next().unwrap_or("")));
+    }
+    // leave the daemon as the next case expects it
+    w.next_parent = Instant::now();
+    let r0 = Instant::now();
+    while r0.elapsed() < Duration::from_millis(3000) {
+        let d = Instant::now() + Duration::from_millis(100);
+        w.run_until(d);
+        if r0.elapsed() > Duration::from_millis(700) && w.steady() {
+            break;
+        }
+    }
+    E2eOut { out, inconclusive: None }
+}
+
 // ---------------------------------------------------------------- C07 case (traffic that must have no effect)
 
 /// One case: the daemon is slaved for 3 s to a grandmaster played by the harness whose clock is the system clock (so
@@ -3460,6 +3633,7 @@ pub fn worker_main(args: &[String]) -> i32 {
             "C09" => case_c09(&mut w, &mut tape),
             "C08" => case_c08(&mut w, &mut tape),
             "C07" => case_c07(&mut w, &mut tape),
+            "C05" => case_c05(&mut w, &mut tape),
             "C06" => case_c06(&mut w, &mut tape, idx as u32),
             _ => {
                 println!("{}", json!({"fatal": format!("no end-to-end case for {}", prop)}));
@@ -3487,6 +3661,7 @@ pub fn worker_main(args: &[String]) -> i32 {
             o.insert("domain".into(), json!(variant.domain));
             o.insert("acceptable_master_list".into(), json!(variant.aml));
             o.insert("delay_asymmetry_ns".into(), json!(variant.asym_ns));
+            o.insert("own_priority1".into(), json!(variant.own_p1));
         }
         let line = json!({
             "index": idx,
